@@ -264,45 +264,87 @@ def capacity_validation(db, cx, rule):
     name = C + "ExtendFromPrimariesAction::insert"
     fs = db.get(name)
     cx.require(fs, "anchor %s not found" % name)
-    for f in fs:
-        launches = [(b, i, ev) for (b, i, ev) in
-                    f.calls(C + "ExtendFromPrimariesAction::insert_impl")]
-        cx.require(launches, "insert no longer calls insert_impl")
-        ok = False
-        why_not = "no comparison of primaries + num_initializers with the capacity"
+    PCOUNT = C + "PrimaryStateData::count"
+
+    def capacity_checks(f):
+        """(branch, passing edge) of every throwing comparison
+        num_initializers + <primaries> <= <initializer capacity> in f."""
+        out = []
+        prim = [p["n"] for p in f.r["params"] if "Primary" in p["ty"]]
         for bid, blk in f.blocks.items():
             c = blk.get("cond")
             if not c or c.get("op") not in ("<=", "<", ">=", ">"):
                 continue
             l, r = c.get("lrefs", []), c.get("rrefs", [])
-            lt, rt = c.get("l", ""), c.get("r", "")
+            lc, rc = c.get("lcalls", []), c.get("rcalls", [])
             if c["op"] in (">=", ">"):
-                l, r, lt, rt = r, l, rt, lt
+                l, r, lc, rc = r, l, rc, lc
 
-            def origin(names, pos):
-                out = set()
-                for nme in local_refs(names):
-                    for (_b, _i, d) in f.reaching_defs(nme, pos):
-                        out |= set(d.get("refs", [])) | set(d.get("calls", []))
-                return out | set(names)
-            lo = origin(l, (bid, 10 ** 6))
-            ro = origin(r, (bid, 10 ** 6))
-            prim = [p["n"] for p in f.r["params"] if "Primary" in p["ty"]]
-            if CNT in lo and prim and prim[0] in l and "+" in lt \
-                    and C + "TrackInitParams::capacity" in ro:
+            def origin(names, calls, pos, depth=3):
+                out_ = set(names) | set(calls)
+                frontier = set(local_refs(names))
+                for _ in range(depth):
+                    nxt = set()
+                    for nme in frontier:
+                        for (_b, _i, d) in f.reaching_defs(nme, pos):
+                            out_ |= set(d.get("refs", [])) | set(d.get("calls", []))
+                            nxt |= set(local_refs(d.get("refs", [])))
+                    frontier = nxt - frontier
+                return out_
+            lo = origin(l, lc, (bid, 10 ** 6))
+            ro = origin(r, rc, (bid, 10 ** 6))
+            has_prim = any(p in lo for p in prim) or "F:" + PCOUNT in lo
+            has_cap = C + "TrackInitParams::capacity" in ro or \
+                (INITS in ro and any(x.endswith("::size") for x in ro))
+            if CNT in lo and has_prim and has_cap:
                 e = f.cond_polarity_edge(bid, True)
                 fail_tgt = f.blocks[bid]["succ"][1 - e]
                 throws = fail_tgt is not None and \
                     f.must_pass(lambda ev: False, start=(fail_tgt, -1))[0]
-                dom = all(f.guarded_by_edge((b, i), bid, e) for (b, i, _ev) in launches)
-                if throws and dom:
-                    ok = True
+                if throws:
+                    out.append((bid, e))
+        return out
+
+    for f in fs:
+        launches = [(b, i, ev) for (b, i, ev) in
+                    f.calls(C + "ExtendFromPrimariesAction::insert_impl")]
+        cx.require(launches, "insert no longer calls insert_impl")
+        checks = capacity_checks(f)
+        ok = any(all(f.guarded_by_edge((b, i), br, e) for (b, i, _ev) in launches)
+                 for (br, e) in checks)
+        detail = "validate primaries.size() + num_initializers <= init capacity; then insert_impl"
+        if not ok:
+            # the check may live in insert_impl itself: then it has to dominate everything that
+            # queues the primaries (the pending count and the copy into the per-stream buffer)
+            impls = db.get(C + "ExtendFromPrimariesAction::insert_impl")
+            per = []
+            for g in impls:
+                gchecks = capacity_checks(g)
+                sinks = [(b, i, ev) for (b, i, ev) in g.events("write")
+                         if path_leaf(ev.get("path")) == PCOUNT]
+                sinks += [(b, i, ev) for (b, i, ev) in g.events("call")
+                          if ev["callee"].startswith(C + "Copier") and not ev.get("ctor")]
+                if not sinks:
+                    per.append((False, "insert_impl no longer queues primaries where expected"))
+                    continue
+                good = any(all(g.guarded_by_edge((b, i), br, e) for (b, i, _ev) in sinks)
+                           for (br, e) in gchecks)
+                if good:
+                    per.append((True, ""))
+                elif gchecks:
+                    late = [short(ev["loc"]) for (b, i, ev) in sinks
+                            if not any(g.guarded_by_edge((b, i), br, e) for (br, e) in gchecks)]
+                    per.append((False, "capacity check in insert_impl does not dominate the "
+                                "queueing of the primaries at %s" % ", ".join(late)))
                 else:
-                    why_not = "throwing arm: %s, dominates insert_impl: %s" % (throws, dom)
-        cx.ob(rule, "ExtendFromPrimaries capacity check dominates insert_impl", ok,
-              "validate primaries.size() + num_initializers <= init capacity; then insert"
-              if ok else why_not, short(f.loc),
-              why="too many primaries would be copied past the initializer capacity")
+                    per.append((False, "no comparison of primaries + num_initializers with the capacity"))
+            ok = bool(per) and all(x[0] for x in per)
+            detail = "capacity validated inside insert_impl before anything is queued" if ok else \
+                next(x[1] for x in per if not x[0]) if per else "insert_impl not found"
+        cx.ob(rule, "ExtendFromPrimaries capacity check dominates the queueing of primaries", ok,
+              detail, short(f.loc),
+              why="too many primaries would be copied past the initializer capacity, or a "
+                  "rejected batch would stay queued for the next step")
     # capacity() is what the initializer array was sized with
     n = 0
     for f in db.get(C + "resize"):
